@@ -302,15 +302,17 @@ _V1_Z7 = _v1p("^VerifC07_v1_zero_share$", dict(n=[3]), dict(n=[3]), scenarios=_S
 _V1_Z6 = _v1p("^VerifC06_v1_zero_share$", dict(n=[3], Hmax=[3]), dict(n=[3], Hmax=[4]), scenarios=_SCZ6)
 _V1_SIMPLE = _v1p("^Verif(C16_v1simple_main|C01_v1simple_handler)$", dict(H=[1, 2], K=[2]), dict(H=[1, 2, 3], K=[3]))
 _V1_C17RUN = _v1p("^VerifC17_v1_run$", dict(n=[2], H=[2], J=[2], C=[2], K=[3]), dict(n=[2], H=[2, 3], J=[2], C=[2], K=[3]))
-_V1_C17 = [_V1_C17RUN, _v1p("^VerifC17_step_", dict(n=[1, 2, 3]), dict(n=[1, 2, 3, 4]), native=True),
+# the same kind of run in a file that shares nothing with the white-box harnesses (survives re-organised bookkeeping): C01 / C02 / C07 / C17 on channel traffic alone
+_V1_BBRUN = _v1p("^VerifBB_v1_run$", dict(n=[2], H=[2], J=[2], C=[2], K=[3]), dict(n=[2], H=[2, 3], J=[2], C=[2], K=[3]))
+_V1_C17 = [_V1_C17RUN, _V1_BBRUN, _v1p("^VerifC17_step_", dict(n=[1, 2, 3]), dict(n=[1, 2, 3, 4]), native=True),
            _v1p("^VerifC17_loop_commands$", dict(n=[1], C=[2], J=[1], B=[1], K=[1]), dict(n=[1], C=[2, 3], J=[1], B=[1], K=[1]))]
 
 PROPS["C01"]["groups"] += [_V1_STEP_A, _V1_STEP_B, _V1_PRIOR, _V1_MAIN, _V1_NEW, _V1_SIMPLE] + _V1_C17
 PROPS["C02"]["groups"] += [_V1_STEP_A, _V1_STEP_B, _V1_PRIOR, _V1_MAIN, _V1_SIMPLE] + _V1_C17
 PROPS["C05"]["groups"] += [_V1_ROUND, _V1_SAT3, _V1_NEW, _V1_SORTL]
 PROPS["C06"]["groups"] += [_V1_ROUND, _v1p("^VerifC06_progress_two_rounds$", dict(n=[2, 3], Hmax=[3]), dict(n=[2, 3, 4], Hmax=[4])), _V1_MAIN, _V1_Z6, _v1p("^VerifC01_step_calcTactic$", dict(n=[1, 2, 3]), dict(n=[1, 2, 3, 4])), _v1p("^VerifC01_step_feedback$", dict(n=[1, 2], J=[2]), dict(n=[1, 2, 3], J=[3]))]
-PROPS["C07"]["groups"] += [_V1_MAIN, _V1_PROMPT, _V1_Z7, _V1_SIMPLE, _V1_C17RUN, _v1p("^VerifC01_step_io$", dict(n=[1, 2, 3], J=[2]), dict(n=[1, 2, 3, 4], J=[3]))]
-PROPS["C15"]["groups"] += [_V1_STEP_A, _V1_STEP_B, _V1_MAIN, _V1_NEW, _V1_RFAULT, _V1_RUNFAULT, _V1_SIMPLE, _V1_C17[1], _V1_SORTL]  # the divisions made by AddInput / RemoveInput obey the argument contract too
+PROPS["C07"]["groups"] += [_V1_MAIN, _V1_PROMPT, _V1_Z7, _V1_SIMPLE, _V1_C17RUN, _V1_BBRUN, _v1p("^VerifC01_step_io$", dict(n=[1, 2, 3], J=[2]), dict(n=[1, 2, 3, 4], J=[3]))]
+PROPS["C15"]["groups"] += [_V1_STEP_A, _V1_STEP_B, _V1_MAIN, _V1_NEW, _V1_RFAULT, _V1_RUNFAULT, _V1_SIMPLE, _V1_C17[2], _V1_SORTL]  # the divisions made by AddInput / RemoveInput obey the argument contract too
 PROPS["C16"]["groups"] += [_V1_SIMPLE]
 for _p in ("C01", "C02", "C05", "C06", "C07", "C15"):
     PROPS[_p]["level_note"] += " v1: ported harness (same obligations), plus removed priorities with items in flight (foreign key in actual); v1 progress/termination obligations assume every share >= 1 (documented precondition), the zero-share case is a recorded known finding."
